@@ -46,3 +46,12 @@ def fixed_width(ctx, quals, why, floor):
                 ctx.violate(q, '`%s` is written with a width that depends on its value (%s)' % (norm(c)[:90], v), c, why)
     ctx.saw('%d to_bytes conversions in %d functions have a width that does not depend on the value' % (n, len(quals)))
     ctx.floor(n, floor, 'to_bytes conversions')
+
+
+def fixed_width_modules(ctx, modules, why, floor, exceptions=('scripts:encode_num',)):
+    """the same rule over whole modules; script numbers (encode_num) are minimal-length by definition"""
+    quals = []
+    for mn in modules:
+        m = ctx.repo.mod(mn)
+        quals += ['%s:%s' % (mn, q) for q in sorted(m.functions) if '%s:%s' % (mn, q) not in exceptions]
+    fixed_width(ctx, quals, why, floor)
